@@ -99,7 +99,13 @@ func RunC06(rep *report.Report, tier string) {
 // RunC01Server is the server tier of C01: one primary session drives the real doModify (translation of the RIB's
 // verdicts into results included) from a state with a chain installed and a REPLACE held; the installed state must
 // equal the fold of the RIB_PROGRAMMED results after every step.
-func RunC01Server(rep *report.Report, tier string) {
+func RunC01Server(rep *report.Report, tier string) { runServerTier(rep, tier, true) }
+
+// RunServerTierLite is the same search from the richer start state in RIB-ack mode only (used by the checks whose
+// property is decided at the RIB tier, so that the server's translation of RIB verdicts is in their scope too).
+func RunServerTierLite(rep *report.Report, tier string) { runServerTier(rep, tier, false) }
+
+func runServerTier(rep *report.Report, tier string, full bool) {
 	entries := []string{"ADD nh1", "DELETE nh1", "ADD v4->1", "ADD nhg1{1}", "DELETE nhg1", "REPLACE v4->2", "DELETE v4", "ADD nhg2{2}", "ADD nh2", "ADD v4@V->1@D", "ADD v6@V->1@D"}
 	ls := MakeLetters(1, []ID{{0, 1}}, []stamp{stOwn}, nil, entries, [][]string{{"ADD nhg2{2}", "ADD nh2"}, {"ADD v6@V->1@D", "ADD nh1", "ADD nhg1{1}"}})
 	idx := func(name string) int {
@@ -115,10 +121,16 @@ func RunC01Server(rep *report.Report, tier string) {
 		d = 6
 	}
 	for _, fib := range []bool{false, true} {
+		if fib && !full {
+			continue
+		}
 		for label, init := range map[string][]string{
 			"primary-established":              {"open s0", "announce s0 (0,1)"},
 			"chain-installed-and-replace-held": {"open s0", "announce s0 (0,1)", "operate s0 [ADD nh1] stamp=own", "operate s0 [ADD nhg1{1}] stamp=own", "operate s0 [ADD v4->1] stamp=own", "operate s0 [REPLACE v4->2] stamp=own"},
 		} {
+			if !full && label == "primary-established" {
+				continue
+			}
 			var root []int
 			for _, n := range init {
 				root = append(root, idx(n))
